@@ -161,7 +161,7 @@ fn check_out_of_range(depth: u8, part: &mut Part) {
 }
 
 pub fn run(ctx: &Ctx) -> i32 {
-  let d_exh: u8 = if ctx.quick() { 10 } else { 12 };
+  let d_exh: u8 = if ctx.quick() { 11 } else { 13 };
   // jobs: (depth, lo, hi) ranges for exhaustive depths, then one job per deep depth
   let mut jobs: Vec<(u8, u64, u64, bool)> = vec![];
   for d in 0..=d_exh {
